@@ -11,7 +11,7 @@ use std::ffi::c_ulong;
 pub const INFO: CheckInfo = CheckInfo {
     prop: "C02",
     level: "model_checking",
-    rule: "every byte string of the decoder corpus (R4 streams in raw/zlib/gzip wrappers x {intact, trailing garbage, every truncation, every single-bit flip, byte substitutions}) and every byte string of length <= 2 (3 thorough), under every inflateInit2 mode, executed through: streaming inflate under schedules {one call, 1-byte input, 1-byte output, 0-byte output then ample, first call exactly 14/15/16 input bytes x 259/260/261 output bytes (fast-path entry thresholds), and for intact streams of <= 700 output bytes every position of the first output-room end and every uniform room 4..300}; uncompress / uncompress2 with destination sizes {0,1,exact-1,exact,ample}; zlib_rs::decompress_slice and Inflate::decompress; inflateGetHeader capture with capacities {NULL,0,1,len}; inflateBack (windowBits 8/9/10/15, window in both placements, one input slice and 1-byte slices) on every raw string. Every buffer handed to the library lies in a guard-paged arena, once with its END against a PROT_NONE page and once with its START right after one; stream state comes from a guard-paged garbage-filled allocator. Oracle: no signal (attributed to the case by the explorer), no panic, documented return code, cursors inside the buffers, totals consistent, bounded number of calls, progress on every call with input and room (bytes or H2 state change). distinct_nontrivial = distinct (verdict, output, consumed) outcomes.",
+    rule: "every byte string of the decoder corpus (R4 streams in raw/zlib/gzip wrappers x {intact, trailing garbage, every truncation, every single-bit flip, byte substitutions}) and every byte string of length <= 2 (3 thorough), under every inflateInit2 mode, executed through: streaming inflate under schedules {one call, 1-byte input, 1-byte output, 0-byte output then ample, first call exactly 14/15/16 input bytes x 259/260/261 output bytes (fast-path entry thresholds), and for intact streams of <= 700 output bytes every position of the first output-room end and every uniform room 4..300}; uncompress / uncompress2 with destination sizes {0,1,exact-1,exact,ample}; zlib_rs::decompress_slice and Inflate::decompress; inflateGetHeader capture with capacities {NULL,0,1,len}; inflateBack (windowBits 8/9/10/15, window in both placements, one input slice and 1-byte slices) on every raw string. Every buffer handed to the library lies in a guard-paged arena, once with its END against a PROT_NONE page and once with its START right after one; stream state comes from a guard-paged garbage-filled allocator. Oracle: no signal (attributed to the case by the explorer), no panic, documented return code, cursors inside the buffers, totals consistent, bounded number of calls, progress on every call with input and room (bytes or H2 state change). Family primed-decoder: 0..=5 inflatePrime(16, v) calls (3 values) before every raw corpus stream, then inflate with ample / 261-byte / 1-byte rooms or inflateSync + inflate, under guard pages. distinct_nontrivial = distinct (verdict, output, consumed) outcomes.",
     assumptions: &["over-reads/over-writes smaller than the allocator's alignment slack inside one allocation are not visible to guard pages (the ASan pass of the thorough tier covers them when nightly is present)", "strings outside the corpus / longer than 3 bytes with > 1 fault are not covered"],
     bound_quick: "corpus programs <= 3 tokens, every mutation under end-placement one-shot; every 3rd mutation under the other schedules/placements; strings <= 2 bytes",
     bound_thorough: "every mutation under every schedule and placement; strings <= 3 bytes",
@@ -286,6 +286,83 @@ pub fn run(ctx: &mut Ctx) {
                 },
             );
         });
+    }
+    // a decoder whose bit buffer was filled with inflatePrime as far as the library lets the caller (0..=5 calls of 16
+    // bits; the refusal of the one too many is C16's business): whatever the stream, the next inflate - on the fast path
+    // (>= 15 input bytes, >= 260 bytes of room) or not - or inflateSync returns with a documented status
+    for (gi, g) in corp.gens.iter().enumerate() {
+        if g.light && gi % 16 != 0 {
+            continue;
+        }
+        for primes in 0..=5usize {
+            for value in [0i32, 0xffff, 0x1234] {
+                ctx.case(
+                    "primed-decoder",
+                    || format!("raw stream[{}] inflateInit2(-15) ; {primes} x inflatePrime(16, {value:#x}) ; then inflate (ample room / 261-byte rooms / 1-byte rooms) or inflateSync + inflate", g.name),
+                    |c| unsafe {
+                        for follow in 0..4 {
+                            c.exec();
+                            let mut st = Strm::guarded(0x3C);
+                            if Rs::inflateInit2_(st.p(), -15, Rs::zlibVersion(), STREAM_SIZE) != Z_OK {
+                                return Err("init".into());
+                            }
+                            for k in 0..primes {
+                                let r = Rs::inflatePrime(st.p(), 16, value);
+                                if r != Z_OK && r != Z_STREAM_ERROR {
+                                    Rs::inflateEnd(st.p());
+                                    return Err(format!("inflatePrime call {k} returned undocumented {}", rc_name(r)));
+                                }
+                            }
+                            let pin = env_end.ain.put(&g.raw, true);
+                            st.z.next_in = pin;
+                            st.z.avail_in = g.raw.len() as u32;
+                            let mut sync_failed = false;
+                            if follow == 3 {
+                                let r = Rs::inflateSync(st.p());
+                                sync_failed = r != Z_OK;
+                                if !matches!(r, Z_OK | Z_DATA_ERROR | Z_BUF_ERROR | Z_STREAM_ERROR) {
+                                    Rs::inflateEnd(st.p());
+                                    return Err(format!("inflateSync returned undocumented {}", rc_name(r)));
+                                }
+                            }
+                            let room = [1usize << 17, 261, 1, 1 << 17][follow];
+                            let mut calls = 0usize;
+                            loop {
+                                let pout = env_end.aout.at_end(room);
+                                st.z.next_out = pout;
+                                st.z.avail_out = room as u32;
+                                let before = (st.z.avail_in, st.z.total_out);
+                                let r = Rs::inflate(st.p(), Z_NO_FLUSH);
+                                calls += 1;
+                                let used = (st.z.next_in as usize).wrapping_sub(pin as usize);
+                                let made = (st.z.next_out as usize).wrapping_sub(pout as usize);
+                                if used > g.raw.len() || made > room {
+                                    Rs::inflateEnd(st.p());
+                                    return Err(format!("cursors left their buffers: {used} of {} consumed, {made} of {room} produced", g.raw.len()));
+                                }
+                                // (a decoder left searching for a sync point answers Z_STREAM_ERROR to inflate, as zlib's does)
+                                if !matches!(r, Z_OK | Z_STREAM_END | Z_BUF_ERROR | Z_DATA_ERROR | Z_NEED_DICT | Z_MEM_ERROR) && !(sync_failed && r == Z_STREAM_ERROR) {
+                                    Rs::inflateEnd(st.p());
+                                    return Err(format!("inflate returned undocumented {}", rc_name(r)));
+                                }
+                                if r != Z_OK || (before.0 == st.z.avail_in && before.1 == st.z.total_out) || calls > 400_000 {
+                                    if calls > 400_000 {
+                                        Rs::inflateEnd(st.p());
+                                        return Err("inflate does not come to an end".into());
+                                    }
+                                    break;
+                                }
+                            }
+                            c.outcome(mix(st.z.total_out as u64, (primes * 4 + follow) as u64));
+                            Rs::inflateEnd(st.p());
+                        }
+                        c.nontrivial();
+                        c.validated();
+                        Ok(())
+                    },
+                );
+            }
+        }
     }
     let n = if quick { 2 } else { 3 };
     let modes: &[i32] = if quick { &[-15, 15, 31, 47] } else { &[-15, -8, 15, 8, 0, 31, 24, 47, 32] };
